@@ -139,7 +139,7 @@ def rule_bool_is_not_a_number(ctx, rep, rid: str) -> None:
     """C06-R4: Python's bool is a subclass of int.  Wherever a script value is handed back *unchanged* as a
     number because it passed an `isinstance(v, int)` / `isinstance(v, (int, float))` test, booleans must have
     been excluded first (an earlier `isinstance(v, bool)` branch, or `not isinstance(v, bool)` in the test)."""
-    rep.rule(rid, "a script value is returned unchanged as a number under an isinstance(v, int/float) test only after booleans were excluded (bool is a subclass of int in the host)", floor=4)
+    rep.rule(rid, "a script value is returned unchanged as a number under an isinstance(v, int/float) test only after booleans were excluded (bool is a subclass of int in the host)", floor=3)
     from ..util import atoms
 
     for f in ctx.tree.funcs:
